@@ -18,11 +18,13 @@ struct WorldH : World {
   std::vector<std::string> unlinks;   // canonical paths qmail-clean tried to unlink under queue/ (pid/ sweeps recorded separately)
   std::vector<std::string> pid_unlinks;
   // spawners
-  struct Agent { std::string role; std::vector<std::string> argv; uint32_t uid, euid, gid; std::vector<uint32_t> groups; bool fd0_regular = false; uint32_t fd0_owner = 0; std::string fd0_path; };
+  struct Agent { std::string role; std::vector<std::string> argv; uint32_t uid, euid, gid; std::vector<uint32_t> groups; bool fd0_regular = false; uint32_t fd0_owner = 0; std::string fd0_path; std::string idseq; int pid = 0; bool used = false; };
   std::vector<Agent> agents;
   std::vector<std::string> spawner_opens;
   Json agent_script;              // list of {out, code, crash}
   size_t agent_no = 0;
+  std::map<int, std::string> idseq;   // per child pid: order of setgroups/setgid/setuid calls before exec
+  bool c11 = false; int newu_status = -1; std::string assign_src; bool cdb_damaged = false; bool lookup_fault = false;
 
   void setup() override {
     t.build(k, conf);
@@ -38,8 +40,18 @@ struct WorldH : World {
     k->put_exec(t.home + "/bin/qmail-local", "stub:agent", 0711);
     k->put_exec(t.home + "/bin/qmail-remote", "stub:agent", 0711);
     k->natives["agent"] = [this](int argc, char **argv) { return agent_main(argc, argv); };
-    k->passwd.push_back(PwEnt{"user1", 1001, 1001, "/home/user1", "/bin/sh"});
-    k->mkdir_p("/home/user1", 0755, 1001, 1001);
+    for (auto &o : plan->knobs["oracles"].a) if (o.str() == "c11") c11 = true;
+    if (plan->knobs.has("passwd")) {
+      for (auto &u : plan->knobs["passwd"].a) {
+        k->passwd.push_back(PwEnt{u.gets("name"), (uint32_t)u.geti("uid"), (uint32_t)u.geti("gid"), u.gets("home"), "/bin/sh"});
+        if (u.getb("home_exists", true)) k->mkdir_p(u.gets("home"), 0755, (uint32_t)u.geti("home_uid", u.geti("uid")), (uint32_t)u.geti("gid"));
+      }
+    } else { k->passwd.push_back(PwEnt{"user1", 1001, 1001, "/home/user1", "/bin/sh"}); k->mkdir_p("/home/user1", 0755, 1001, 1001); }
+    k->mkdir_p(t.home + "/alias", 02755, t.uids["alias"], t.gid_qmail)->uid = t.uids["alias"];
+    k->put_exec(t.home + "/bin/qmail-newu", "qmail-newu", 0700);
+    if (plan->knobs.has("assign")) { assign_src = plan->knobs.gets("assign"); k->put_file(t.home + "/users/assign", assign_src, 0644); }
+    if (plan->knobs.has("getpw_stub")) { k->put_exec(t.home + "/bin/qmail-getpw", "stub:getpw", 0711); k->natives["getpw"] = [this](int, char **) { const Json &g = plan->knobs["getpw_stub"]; std::string o = g.gets("out"); if (!o.empty()) k->sys_write(1, o.data(), o.size()); if (g.getb("crash", false)) k->kill_proc(k->cp(), 11); return (int)g.geti("code", 0); }; }
+    for (auto &f : plan->faults) if (f.kind == "error" || f.kind == "kill" || f.kind == "null") lookup_fault = true;
     // decoys: every file a wrongly parsed request or message id could hit
     for (uint64_t n : {1ULL, 2ULL, 12ULL, 34ULL, 77ULL, 123ULL, 1234ULL}) {
       k->put_file(t.qp("mess", n, true), "decoy message " + std::to_string(n) + "\n", 0644, uq, t.gid_qmail);
@@ -64,6 +76,7 @@ struct WorldH : World {
     Proc *p = k->cp();
     Agent a; a.role = p->role; for (int i = 0; i < argc; i++) a.argv.push_back(argv[i]); a.uid = p->uid; a.euid = p->euid; a.gid = p->gid; a.groups = p->groups;
     if (p->fds.size() > 0 && p->fds[0].of) { OFile *of = p->fds[0].of; a.fd0_regular = of->kind == O_FILE && of->ino && of->ino->type == T_REG; a.fd0_owner = of->ino ? of->ino->uid : 0; a.fd0_path = of->path; }
+    a.pid = p->pid; a.idseq = idseq[p->pid];
     agents.push_back(a);
     Json sc = agent_script.a.empty() ? Json::obj() : agent_script.a[agent_no++ % agent_script.a.size()];
     std::string o = sc.gets("out", "K ok\n");
@@ -75,6 +88,14 @@ struct WorldH : World {
   }
 
   void driver() override {
+    if (!assign_src.empty()) {
+      int np = k->spawn(k->cp(), t.home + "/bin/qmail-newu", {"qmail-newu"}, {}, {{0, k->of_null()}, {1, k->of_sink(errs)}, {2, k->of_sink(errs)}}, 0, 0, "/");
+      k->block([this, np] { Proc *p = k->find_proc(np); return !p || p->st != Proc::LIVE; }, k->clock + 1000, false);
+      Proc *p = k->find_proc(np); newu_status = p ? p->status : -1;
+      int64_t tr = plan->knobs.geti("cdb_truncate", -1);
+      Inode *cdb = k->lookup(t.home + "/users/cdb");
+      if (cdb && tr >= 0 && (size_t)tr < cdb->data.size()) { cdb->data.resize((size_t)tr); cdb->synced = cdb->data; cdb_damaged = true; k->note_fault("cdb_corrupt"); }
+    }
     std::string bin = mode == "clean" ? "qmail-clean" : mode == "lspawn" ? "qmail-lspawn" : "qmail-rspawn";
     std::vector<std::string> argv = {bin}; if (mode == "lspawn") argv.push_back("./Mailbox");
     uint32_t uid = mode == "clean" ? t.uids["qmailq"] : mode == "lspawn" ? 0 : t.uids["qmailr"];
@@ -92,6 +113,11 @@ struct WorldH : World {
       if (e.call == C_UNLINK) { if (e.path.find("/queue/pid/") != std::string::npos) { if (e.ret == 0) pid_unlinks.push_back(e.path); } else unlinks.push_back(e.path); }
       bool mut = (e.call == C_RENAME || e.call == C_LINK || e.call == C_FTRUNCATE || e.call == C_MKDIR || (e.call == C_WRITE && e.ino) || (e.call == C_OPEN && (e.a & (O_WRONLY | O_RDWR | O_CREAT | O_TRUNC)))) && e.ret >= 0;
       if (mut) violate("C18.clean-modifies-files", std::string(call_name(e.call)) + " " + e.path);
+    }
+    if (p->role == "qmail-lspawn/child" && e.ret == 0) {
+      if (e.call == C_SETGROUPS) idseq[e.pid] += "G(" + std::to_string(e.a) + ":" + std::to_string(e.b) + ")";
+      if (e.call == C_SETGID) idseq[e.pid] += "g(" + std::to_string(e.a) + ")";
+      if (e.call == C_SETUID) idseq[e.pid] += "u(" + std::to_string(e.a) + ")";
     }
     if ((mode == "lspawn" && p->role == "qmail-lspawn") || (mode == "rspawn" && p->role == "qmail-rspawn")) {
       if (e.call == C_OPEN) spawner_opens.push_back(e.path);
@@ -181,8 +207,94 @@ struct WorldH : World {
     }
   }
 
+  // ---------------------------------------------------------------- C11: who runs the delivery?
+  struct Ident { bool found = false; std::string user, uid, gid, home, dash, ext; };
+  static std::string lowers(std::string x) { for (auto &c : x) c = (char)tolower((unsigned char)c); return x; }
+  // qmail-users(5) over the SOURCE table: simple assignment first (first duplicate wins), then the longest wildcard prefix; case-insensitive
+  bool ref_assign(const std::string &local, Ident &id, bool &table_ok) {
+    table_ok = true;
+    struct Ent { bool wild; std::string loc; std::vector<std::string> f; };
+    std::vector<Ent> ents; size_t i = 0; bool ended = false;
+    while (i < assign_src.size()) {
+      size_t e = assign_src.find('\n', i); if (e == std::string::npos) { std::string last = assign_src.substr(i); if (!last.empty() && last[0] == '.') ended = true; else table_ok = false; break; }
+      std::string l = assign_src.substr(i, e - i); i = e + 1;
+      if (!l.empty() && l[0] == '.') { ended = true; break; }
+      size_t c = l.find(':'); if (c == std::string::npos || c == 0 || l.find('\0') != std::string::npos) { table_ok = false; break; }
+      Ent en; en.wild = l[0] == '+'; en.loc = lowers(l.substr(1, c - 1));
+      std::string rest = l.substr(c + 1); size_t q = 0; while (en.f.size() < 6) { size_t cc = rest.find(':', q); if (cc == std::string::npos) break; en.f.push_back(rest.substr(q, cc - q)); q = cc + 1; }
+      if (en.f.size() < 6) { table_ok = false; break; }
+      ents.push_back(en);
+    }
+    if (!ended) table_ok = false;
+    if (!table_ok) return false;
+    std::string key = lowers(local);
+    for (auto &en : ents) if (!en.wild && en.loc == key) { id.found = true; id.user = en.f[0]; id.uid = en.f[1]; id.gid = en.f[2]; id.home = en.f[3]; id.dash = en.f[4]; id.ext = en.f[5]; return true; }
+    for (size_t len = key.size() + 1; len-- > 0;) for (auto &en : ents) if (en.wild && en.loc == key.substr(0, len)) { id.found = true; id.user = en.f[0]; id.uid = en.f[1]; id.gid = en.f[2]; id.home = en.f[3]; id.dash = en.f[4]; id.ext = en.f[5] + local.substr(len); return true; }
+    return false;
+  }
+  // qmail-getpw(8) over the passwd table
+  bool ref_getpw(const std::string &local, Ident &id) {
+    char brk = conf.gets("break", "-")[0];
+    for (size_t kx = local.size() + 1; kx-- > 0;) {
+      if (kx >= 32) continue;
+      if (!(kx == local.size() || local[kx] == brk)) continue;
+      std::string name = lowers(local.substr(0, kx));
+      for (auto &pe : k->passwd) if (pe.name == name) {   // first entry with that name is what getpwnam returns
+        if (pe.uid == 0) break;
+        Inode *h = k->lookup(pe.dir); if (!h || h->uid != pe.uid) break;
+        id.found = true; id.user = pe.name; id.uid = std::to_string(pe.uid); id.gid = std::to_string(pe.gid); id.home = pe.dir;
+        if (kx < local.size()) { id.dash = "-"; id.ext = local.substr(kx + 1); } else { id.dash = ""; id.ext = ""; }
+        return true;
+      }
+    }
+    std::string alias = conf["users"].a.size() ? conf["users"].a[0].str() : "alias";
+    for (auto &pe : k->passwd) if (pe.name == alias) { id.found = true; id.user = pe.name; id.uid = std::to_string(pe.uid); id.gid = std::to_string(pe.gid); id.home = pe.dir; id.dash = "-"; id.ext = local; return true; }
+    return false;
+  }
+
+  void finish_c11() {
+    struct Cmd { int delnum; std::string messid, sender, recip; };
+    std::vector<Cmd> cmds; size_t i = 0;
+    while (i < stream.size()) { size_t a = stream.find('\0', i + 1); if (a == std::string::npos) break; size_t b = stream.find('\0', a + 1); if (b == std::string::npos) break; size_t c = stream.find('\0', b + 1); if (c == std::string::npos) break;
+      cmds.push_back(Cmd{(unsigned char)stream[i], stream.substr(i + 1, a - i - 1), stream.substr(a + 1, b - a - 1), stream.substr(b + 1, c - b - 1)}); i = c + 1; }
+    if (!helper_done) { violate("C11.lspawn-did-not-finish", "qmail-lspawn still running"); return; }
+    std::map<int, std::string> reports; { const std::string &o = out->data; size_t p = 1; while (p < o.size()) { size_t z = o.find('\0', p + 1); if (z == std::string::npos) break; reports[(unsigned char)o[p]] = o.substr(p + 1, z - p - 1); p = z + 1; } }
+    bool have_cdb = k->lookup(t.home + "/users/cdb") != nullptr;
+    for (auto &c : cmds) {
+      size_t at = c.recip.rfind('@'); if (at == std::string::npos) continue;
+      std::string local = c.recip.substr(0, at), domain = c.recip.substr(at + 1);
+      if (local.empty()) continue;   // <>: nothing to run
+      Ident want; bool table_ok = true; bool from_table = false;
+      if (have_cdb) { from_table = ref_assign(local, want, table_ok); }
+      if (!want.found) ref_getpw(local, want);
+      std::string rep = reports.count(c.delnum) ? reports[c.delnum] : "";
+      std::string ctx = "address " + printable(local) + "@" + domain + " (delivery " + std::to_string(c.delnum) + ")";
+      res->nontrivial = true; k->probe("c11_lookups");
+      bool uncertain = cdb_damaged || lookup_fault || plan->knobs.has("getpw_stub");
+      Agent *got = nullptr;   // agents are recorded when they run, which need not be the order of the commands
+      for (auto &ag : agents) if (!ag.used && ag.argv.size() >= 5 && ag.argv[4] == local) { got = &ag; ag.used = true; break; }
+      if (uncertain) {
+        // a damaged database or a failing lookup may defer; it must never bounce, run as somebody else, or run as root
+        if (got) { if (!want.found || got->argv[2] != want.user || std::to_string(got->uid) != want.uid) { violate("C11.misdirected-under-fault", ctx + ": delivered as " + got->argv[2] + " uid " + std::to_string(got->uid) + " under a lookup fault, the table says " + (want.found ? want.user + " uid " + want.uid : std::string("nobody"))); return; } }
+        else if (rep.empty() || rep[0] != 'Z') { violate("C11.lookup-fault-not-deferred", ctx + ": report \"" + printable(rep, 60) + "\" after a lookup fault, expected a temporary failure"); return; }
+        continue;
+      }
+      if (!want.found) { if (got) { violate("C11.identity", ctx + ": delivered although neither table nor passwd rules assign it"); return; } if (rep.empty() || rep[0] != 'Z') { violate("C11.no-user-not-deferred", ctx + ": report \"" + printable(rep, 60) + "\""); return; } continue; }
+      unsigned long wuid = strtoul(want.uid.c_str(), 0, 10), wgid = strtoul(want.gid.c_str(), 0, 10);
+      if (wuid == 0) { if (got) { violate("C11.delivery-as-root", ctx + ": qmail-local started for a uid-0 assignment"); return; } if (rep.empty() || rep[0] != 'Z') { violate("C11.root-not-deferred", ctx + ": report \"" + printable(rep, 60) + "\""); return; } continue; }
+      if (!got) { violate("C11.not-delivered", ctx + ": no qmail-local was started (report \"" + printable(rep, 80) + "\"), expected user " + want.user + (from_table ? " from users/assign" : " from the passwd rules")); return; }
+      std::vector<std::string> wargv = {"bin/qmail-local", "--", want.user, want.home, local, want.dash, want.ext, domain, c.sender, "./Mailbox"};
+      if (got->argv != wargv) { std::string a, b; for (auto &x : got->argv) a += "[" + printable(x, 30) + "]"; for (auto &x : wargv) b += "[" + printable(x, 30) + "]"; violate("C11.identity", ctx + ": qmail-local started with " + a + ", expected " + b); return; }
+      if (got->uid != wuid || got->euid != wuid || got->gid != wgid) { violate("C11.identity", ctx + ": running as uid " + std::to_string(got->uid) + "/" + std::to_string(got->euid) + " gid " + std::to_string(got->gid) + ", expected " + want.uid + "/" + want.gid); return; }
+      if (got->groups.size() != 1 || got->groups[0] != wgid) { violate("C11.supplementary-groups", ctx + ": group list not reduced to {" + want.gid + "}"); return; }
+      std::string wseq = "G(1:" + std::to_string(wgid) + ")g(" + std::to_string(wgid) + ")u(" + std::to_string(wuid) + ")";
+      if (got->idseq != wseq) { violate("C11.id-switch-order", ctx + ": id switches " + got->idseq + ", expected " + wseq + " (groups, gid, then uid)"); return; }
+    }
+    for (auto &ag : agents) if (!ag.used) { violate("C11.identity", "qmail-local was started for \"" + printable(ag.argv.size() >= 5 ? ag.argv[4] : std::string("?")) + "\" which no command asked for"); break; }
+  }
+
   void finish() override {
-    if (mode == "clean") finish_clean(); else finish_spawner();
+    if (c11) finish_c11(); else if (mode == "clean") finish_clean(); else finish_spawner();
     Hash64 h; h.str(out->data); res->state_hash = h.get();
   }
 };
